@@ -44,6 +44,7 @@ else:
     from typing_extensions import LiteralString
 
 import cdd.shared.ast_utils
+import cdd.shared.parse.utils.parser_utils
 import cdd.shared.source_transformer
 from cdd.docstring.utils.emit_utils import interpolate_defaults
 from cdd.docstring.utils.parse_utils import parse_adhoc_doc_for_typ
@@ -58,7 +59,6 @@ from cdd.shared.docstring_utils import (
     Style,
     derive_docstring_format,
 )
-from cdd.shared.parse.utils.parser_utils import merge_present_params
 from cdd.shared.pure_utils import (
     code_quoted,
     count_iter_items,
@@ -544,7 +544,7 @@ def _set_name_and_type(param, infer_type, word_wrap, none_default_for_kwargs=Fal
     was = deepcopy(_param)
     was_none = was.get("default") in frozenset((cdd.shared.ast_utils.NoneStr, "None"))
     if "doc" in _param:
-        merge_present_params(
+        cdd.shared.parse.utils.parser_utils.merge_present_params(
             target_param=_param,
             other_param=dict(zip(("doc", "default"), extract_default(_param["doc"]))),
         )
